@@ -494,6 +494,12 @@ func oracle(run *vk.Run, rng *rand.Rand) {
 		recs = append(recs, orec{Name: fmt.Sprintf("enc%d", t), Kind: "ENC", Input: cps(s), Hrp: vk.Ints(hrp), Data: vk.Ints(data), Key: []int{}, Nm: []int{}})
 		ins = append(ins, in{"ENC", s, ""})
 	}
+	// binding self-test: a valid string recorded as rejected must be singled out by TLC
+	{
+		r, _ := strings32(randKey(rng))
+		recs = append(recs, orec{Name: "selftest-falsified", Kind: "R", Input: cps(r), Ok: false, Key: []int{}, Nm: []int{}, Hrp: []int{}, Data: []int{}})
+	}
+	selfIdx := len(recs)
 	dir, err := os.MkdirTemp("", "c09o-")
 	if err != nil {
 		vk.Infra("%v", err)
@@ -516,10 +522,15 @@ func oracle(run *vk.Run, rng *rand.Rand) {
 	}
 	run.Traces(len(recs))
 	bad := res.PrintsWithPrefix("BAD ")
+	selfSeen := false
 	for _, l := range bad {
 		var v struct {
 			I   int    `json:"i"`
 			Why string `json:"why"`
+		}
+		if err := json.Unmarshal([]byte(l), &v); err == nil && v.I == selfIdx {
+			selfSeen = true
+			continue
 		}
 		if err := json.Unmarshal([]byte(l), &v); err != nil || v.I < 1 || v.I > len(ins) {
 			vk.Infra("bad BAD line %q", l)
@@ -538,8 +549,12 @@ func oracle(run *vk.Run, rng *rand.Rand) {
 			CheckString(run, x.kind, x.s, x.base, "oracle", "oracle:"+x.kind, nil)
 		}
 	}
-	run.Add("oracle_records", len(recs))
-	run.Add("oracle_disagreements", len(bad))
+	if !selfSeen {
+		vk.Infra("binding self-test failed: the Bech32 oracle did not flag a falsified record")
+	}
+	run.Set("binding_selftest", "falsified record flagged by Bech32Gen oracle")
+	run.Add("oracle_records", len(recs)-1)
+	run.Add("oracle_disagreements", len(bad)-1)
 }
 
 // HostileStrings returns TLC-generated key strings (substitutions, variants, plugin names) for C14.
